@@ -173,7 +173,9 @@ def hostile(tier):
             add(mk(g, True, opt=dict(finecontour_Nfine=5)))
         add(mk("lsn", False, opt=dict(y_boundary_guards=4)))
         add(mk("lsn", True, nR=9, nZ=11))
-        add(mk("lsn", True, opt=dict(refine_methods="none")))
+        # (refine_methods="none" is documented as "no refinement (always succeeds)": like
+        # follow_perpendicular_recover it is an explicit request for points that are not on
+        # their surfaces, and is not a member)
         add(mk("lsn", True, opt=dict(refine_atol=1e-3)))
     # inconsistent between equilibrium and mesh: must be rejected
     # (options owned by both the equilibrium and the mesh; keys the mesh does not own are
@@ -217,8 +219,10 @@ def cli_cases(tier):
     if tier == "thorough":
         for yml in ("integrated_tests/connected_doublenull_orthogonal/test_orthogonal.yml",
                     "integrated_tests/connected_doublenull_nonorthogonal/test_nonorthogonal.yml"):
+            # written for the git-lfs geqdsk of the integrated tests (tolerances 1e-15..1e-30):
+            # on our equilibria only acceptance of every option can be demanded
             out.append((dict(family="cli-geqdsk", geom="cdn", yaml_file=yml, label="shipped " + yml,
-                             step_timeout=3000, watchdog_s=3100), "ok"))
+                             step_timeout=3000, watchdog_s=3100), "options-accepted"))
     return out
 
 
